@@ -14,7 +14,7 @@ version's own descriptor); the verdict evaluates `Spec.Reflection` on the *obser
   file-by-name                    an answer to file_by_filename nm is a registered file named nm
   registered-file-retrievable     NOT_FOUND for nm only if no registered file is named nm
   descriptor-decodes-to-registered  every descriptor answer decodes to one of the registered descriptors
-  services-chosen / services-only-declared / services-all-declared
+  services-chosen / services-exactly-declared / services-only-declared / services-all-declared
   answers-every-request           a stream without error has one answer per request
   versions-agree                  without the own descriptors, v1 and v1alpha answer identically
 -/
@@ -236,6 +236,7 @@ def oStream : Nat → List String → List OAns → Option ((List OAns × OEnd) 
           | some (l, r') => oStream fuel r' (.svcs l :: acc)
           | none => none
         | none => none
+    | "r1" :: "fds" :: _ :: r => oStream fuel r (.junk "fds" :: acc)
     | "r1" :: w :: r => oStream fuel r (.junk w :: acc)
     | "r0" :: _ => some ((acc.reverse ++ [.junk "echo"], .junk), [])
     | _ => none
@@ -264,6 +265,10 @@ def oBuild (ts : List String) : OBuild × List String :=
 open Spec.Reflection in
 def judgeAnswer (c : Case) (files : List File) (rq : Reflection.Req) (a : OAns) : List (String × Bool) :=
   match rq, a with
+  | _, .junk w =>
+    if w = "fd-unknown" || w = "fd-undecodable" || w = "fds" then
+      [("descriptor-decodes-to-registered", false)]
+    else [("answer-shape:" ++ w, false)]
   | .fileContainingSymbol n, .fd i =>
     [("symbol-resolves-to-declaring-file", match files[i]? with
       | some f => declares f n
@@ -278,13 +283,17 @@ def judgeAnswer (c : Case) (files : List File) (rq : Reflection.Req) (a : OAns) 
     match c.chosen with
     | some ch => [("services-chosen", decide (l = ch))]
     | none =>
-      [("services-only-declared", l.all (fun n => files.any (fun f => declaresService f n))),
+      [("services-exactly-declared",
+          -- without contested file names the list is, up to order, the services of one copy of
+          -- every registered file (registering a file twice must not list its services twice)
+          !(files.all (fun f => decide (Unconflicted files f)))
+            || l.isPerm ((served files).flatMap serviceNames)),
+       ("services-only-declared", l.all (fun n => files.any (fun f => declaresService f n))),
        ("services-all-declared", files.all (fun f => !decide (Unconflicted files f) ||
           f.services.all (fun s => match s.name with
             | some sn => l.contains (qual (pkg f) sn)
             | none => true)))]
   | .listServices, _ => [("services-answer-kind", false)]
-  | _, .junk w => [("descriptor-decodes-to-registered:" ++ w, false)]
   | _, _ => []
 
 open Spec.Reflection in
@@ -325,6 +334,10 @@ def splitAt (ts : List String) (marker : String) : List String × List String :=
   (ts.takeWhile (· ≠ marker), (ts.dropWhile (· ≠ marker)).drop 1)
 
 def handle (case obs : List String) : String × String :=
+  -- leading label (`corpus`, `structured`, …) is for the evidence statistics only
+  let case := match case with
+    | t :: r => if t = "inc" then case else r
+    | [] => case
   match (pCase.run case) with
   | some (c, _) =>
     let own1 := c.own.map (·.1)
